@@ -176,6 +176,15 @@ def single_op_programs(rng):
             for perm in perms:
                 progs.append({'inputs': [[n * n]], 'steps': [{'op': 'mkmat', 'a': 0, 'n': n, 'sym': sym, 'kind': kind, 'perm': perm},
                                                              {'op': 'la', 'kind': kind, 'a': 1}], 'out': 2, 'out_shape': []})
+    # the factorized / inverted matrix has a second consumer recorded after the node (its adjoint is non-zero when the
+    # node's pullback runs), square and rectangular (tall, wide) QR
+    for kind in ['inv', 'solve', 'det', 'logdet', 'trace', 'qr', 'cholesky', 'eigh', 'lu', 'svd', 'qr_full']:
+        progs.append({'inputs': [[6]], 'steps': [{'op': 'mkmat', 'a': 0, 'n': 2, 'sym': kind in ('cholesky', 'eigh', 'logdet'), 'kind': kind, 'perm': [0, 1]},
+                                                 {'op': 'la', 'kind': kind, 'a': 1, 'post': True}], 'out': 2, 'out_shape': []})
+    for (n, nc) in [(3, 2), (2, 3), (4, 2), (2, 4)]:
+        for post in (False, True):
+            progs.append({'inputs': [[n * nc]], 'steps': [{'op': 'mkmat', 'a': 0, 'n': n, 'cols': nc, 'sym': False, 'kind': 'qr', 'perm': list(range(n))},
+                                                          {'op': 'la', 'kind': 'qr', 'a': 1, 'post': post}], 'out': 2, 'out_shape': []})
     # transposed (non-contiguous) data into reshape, sum over every axis of a matrix, views of views
     progs.append({'inputs': [[2, 3]], 'steps': [{'op': 'transpose', 'a': 0, 'how': 'T'}, {'op': 'reshape', 'a': 1, 'shape': [6], 'how': 'fn'}], 'out': 2, 'out_shape': [6]})
     for ax in (0, 1, -1, -2, None):
